@@ -150,7 +150,7 @@ Step(o, dt) ==
      /\ IF ok THEN ImplEffect(o, t) ELSE UNCHANGED <<led, minD, roles, admin, pend, radm>>
      /\ g' = GNext(g, ev)
      /\ viol' = viol \cup {<<m, Key(m, g, ev)>> : m \in Failing(g, ev)}
-     /\ hist' = Append(hist, o @@ [dt |-> dt, exp |-> ev.res, x0 |-> Execs0])
+     /\ hist' = Append(hist, o @@ [dt |-> dt, exp |-> ev.res, x0 |-> Execs0, m0 |-> Min0])
 
 Next == /\ Len(hist) < Depth
         /\ \E dt \in DTs : \E o \in Ops : Step(o, dt)
